@@ -10,7 +10,7 @@ def hx(b):
 
 class P(ServeProp):
     ID = "C16"
-    THEOREMS = ["C16_roundtrip_partial", "C16_reject_no_opening_boundary", "C16_reject_partial", "C16_empty_body_trim", "C16_no_panic"]
+    THEOREMS = ["C16_round_trip", "C16_domain_inhabited", "C16_roundtrip_partial", "C16_reject_no_opening_boundary", "C16_reject_partial", "C16_empty_body_trim", "C16_no_panic"]
     COQ_TARGETS = ["theories/Props/C16.vo", "theories/Extract.vo"]
     N_QUICK = 3000
     N_THOROUGH = 80000
@@ -74,6 +74,19 @@ class P(ServeProp):
                 t = gs.Tree(); t.ents.append(("D", "outer/root"))
                 out.append(gs.serve_case(rnd, tree=t, cors="all", raw_req=req[:9900], meta="echo=1"))
         return out
+
+    def canon_model(self, line, out):
+        if out and " dom=" in out:
+            out = out.rsplit(" dom=", 1)[0]
+        return self.canon(line, out)
+
+    def model_stats(self, cases, model):
+        import collections
+        c = collections.Counter()
+        for l, m in zip(cases, model):
+            if m and " dom=" in m:
+                c["mprt:" + ("in-theorem-domain" if m.endswith("dom=1") else "outside")] += 1
+        return dict(c)
 
     def canon(self, line, out):
         if strip_meta(line).startswith("serve"):
